@@ -223,7 +223,8 @@ def run(chk: Check, model):
     def _by_class(t):
         return t[0] == "ite" and t[1][0] == "call" and t[1][1] == "isinstance" and mentions(t[1], "TrainableDist")
     # (the distribution stored per connection, on its own or next to the connection in one entry)
-    st = [v for e in rg.events if e.kind == "store_sub" and e.key is not None and e.key[0] == "tuple" for v in ((e.term,) + (tuple(e.term[1]) if e.term[0] == "tuple" else tuple(x for _, x in e.term[2]) if e.term[0] == "obj" else ())) if _by_class(v)]
+    from ..roles import stores_through_derived_tables
+    st = [v for e in stores_through_derived_tables(rg) if e.key is not None and e.key[0] == "tuple" for v in ((e.term,) + (tuple(e.term[1]) if e.term[0] == "tuple" else tuple(x for _, x in e.term[2]) if e.term[0] == "obj" else ())) if _by_class(v)]
     ok = len(st) == 1
     if ok:
         v = st[0]
@@ -260,10 +261,12 @@ def run(chk: Check, model):
         ok = prev is not None and bool(el) and prev == T.mk_attr(T.mk_index(T.mk_attr(T.mk_index(S("graph_state.step_state"), S("node.name")), "inputs"), key_t), "delay_dist")
         chk.add("C10.apply", "carried distribution", bool(ok), f"the undelayed input state carries {T.show(prev)[:160] if prev else None}, expected the previous step's ss.inputs[input_name].delay_dist", chk.loc(f_ui, fo_.node))
         conn = (T.mk_index(S("node.inputs"), el[0]) if by_key else T.mk_index(el[0], T.ONE)) if el else T.NONE
-        ok = a.recv == T.mk_attr(fo_.term, "delay_dist") and a.args == (T.mk_attr(T.mk_attr(conn, "output_node"), "rate"), fo_.term, S("timings_node.ts_start"))
+        # (the carried distribution: read back from the undelayed input state, or the very value it was built with)
+        carried_ = (T.mk_attr(fo_.term, "delay_dist"), prev)
+        ok = a.recv in carried_ and a.args == (T.mk_attr(T.mk_attr(conn, "output_node"), "rate"), fo_.term, S("timings_node.ts_start"))
         chk.add("C10.apply", "apply_delay(sender rate, undelayed inputs, step start) on the carried distribution", ok, f"apply_delay is called on {T.show(a.recv)[:80]} with {[T.show(x)[:60] for x in a.args]}", chk.loc(f_ui, a.node))
         eqs = [e for e in sub.events if e.kind == "call" and e.name.endswith(".equivalent")]
-        ok = len(eqs) == 1 and eqs[0].recv == T.mk_attr(conn, "delay_dist") and eqs[0].args == (T.mk_attr(fo_.term, "delay_dist"),) and flow.equivalent(a.guard, eqs[0].term)
+        ok = len(eqs) == 1 and eqs[0].recv == T.mk_attr(conn, "delay_dist") and len(eqs[0].args) == 1 and eqs[0].args[0] in carried_ and flow.equivalent(a.guard, eqs[0].term)
         chk.add("C10.apply", "applied whenever the distributions are equivalent (else raise)", ok, "apply_delay must run for every input unless equivalent() fails, which must raise", chk.loc(f_ui))
         st = [e for e in sub.events if e.kind == "store_sub" and e.term == a.term]
         chk.add("C10.apply", "the delayed inputs are what the step sees", (len(st) == 1 and st[0].term == a.term and st[0].key == key_t) or _in_comp(sub, a.term, key_t), "new_inputs[input_name] must be the delayed input state", chk.loc(f_ui))
